@@ -34,6 +34,9 @@ class Placement:
     def rotate(self, points, origin):
         """rotation about ``origin`` by an arbitrary angle: (c, s) fresh; c*c + s*s = 1 is used for the witness and in
         the isometry lemma only (the scale identity does not need it)"""
+        if len(points) == 0:
+            # numpy: an empty position array (shape (0,)) cannot be broadcast against the 2-vector origin
+            raise ValueError('operands could not be broadcast together with shapes (0,) (2,)')
         c = sym_real('rot%dc' % len(self.rots))
         s_ = sym_real('rot%ds' % len(self.rots))
         self.rots.append((c, s_))
